@@ -256,7 +256,7 @@ def leaf_is_call(leaf, names):
     return leaf.kind == "call" and any(n in names for n in C.callee_names(leaf.data))
 
 
-def bool_call_edges(body, prog, names, value, arg_pred=None):
+def bool_call_edges(body, prog, names, value, arg_pred=None, strict=False):
     """edges on which a bool-returning call to one of `names` has truth `value`"""
     if isinstance(names, str):
         names = (names,)
@@ -269,7 +269,7 @@ def bool_call_edges(body, prog, names, value, arg_pred=None):
         if arg_pred and not arg_pred(leaf.data):
             return False
         return v == value
-    return C.guard_edges(body, prog, pred)
+    return C.guard_edges(body, prog, pred, strict=strict)
 
 
 def enum_edges(body, prog, adt, variants_pred, src_pred=None):
